@@ -170,6 +170,9 @@ BREAKING = [
                                       "    df_samples = compute_cyclepoints(sig, fs, f_range, **find_extrema_kwargs)\n")],
      'temporary key in the caller\'s find_extrema_kwargs with no call between write and removal '
      '(only line-granularity pre-emption or interruption can see it)'),
+    ('m15_revert_alias_fix', 'C15', [(G, "    kwargs = [kwargs] if isinstance(kwargs, dict) else [kwarg.copy() for kwarg in kwargs]\n",
+                                      "    kwargs = [kwargs] if isinstance(kwargs, dict) else list(kwargs)\n")],
+     'option list that repeats one dict object behaves differently from equal-valued dicts (original defect)'),
     ('m15_module_cache', 'C15', [(F, "    # Compute shape features for each cycle\n    df_shape_features = compute_shape_features(sig, fs, f_range, center_extrema=center_extrema,\n                                               find_extrema_kwargs=find_extrema_kwargs)\n",
                                   "    # Compute shape features for each cycle\n"
                                   "    _key = (len(sig), float(sig[0]), fs, tuple(f_range), center_extrema)\n"
